@@ -56,8 +56,10 @@ def rand_tgt(r, ctx, targeted):
 
 
 def rand_handler(ctx, name=None, recv=None, prio=None, allow_panic=0.02, take_p=0.15, nfetch=None, sender_p=0.7,
-                 body_len=(1, 5), mut_p=0.3, safe_bias=0.7, sends=None, tid=None):
+                 body_len=(1, 5), mut_p=0.3, safe_bias=0.7, sends=None, tid=None, observer=False):
     r = ctx.r
+    if observer:        # a handler that only looks: no sender, never takes, no Single (which may panic)
+        sender_p, take_p, mut_p, allow_panic, sends = 0.0, 0.0, 0.0, 0.0, None
     if name is None:
         name = f"h{ctx.hcount}"
     ctx.hcount += 1
@@ -93,7 +95,7 @@ def rand_handler(ctx, name=None, recv=None, prio=None, allow_panic=0.02, take_p=
     for _ in range(nf):
         fetch_idx.append(len(params))
         params.append("F:" + pick_fetch(r, ctx.comps, safe_bias))
-    if r.random() < 0.12:
+    if r.random() < 0.12 and not observer:
         single_idx.append(len(params))
         q = r.choice([c for c in FAMILY["single"] if all((not ch.isdigit()) or int(ch) in ctx.comps for ch in c)])
         params.append(("S:" if r.random() < 0.4 else "TS:") + q)
@@ -558,10 +560,17 @@ def cascade(seed):
     comps = (0, 1, 2, 3)
     ctx = Ctx(r, comps)
     ops = []
+    # in two histories out of five, everything that can run DURING a component removal only observes, so that the
+    # cascade oracle (vt/judge.py) can predict the deliveries exactly
+    observers = r.random() < 0.4
+    CASC = ("RemC", "Despawn", "RemH", "RemT")
     for i in range(r.randint(2, 7)):
         recv = r.choice(USER_G + ["T0", "Despawn", "Despawn", "RemC", "RemH", "RemT", "AddC", "AddH", "InsK0", "RemK1", "Spawn"])
+        if observers and r.random() < 0.5:
+            recv = r.choice(["Despawn", "Despawn", "RemC", "RemH"])
         ops.append(rand_handler(ctx, recv=recv, allow_panic=0, take_p=0.3 if recv == "Despawn" else 0.1,
-                                tid=(r.randrange(3) if r.random() < 0.25 else None)))
+                                tid=(r.randrange(3) if r.random() < 0.25 else None),
+                                observer=observers and recv in CASC))
     n = r.randint(3, 8)
     for _ in range(n):
         ops.append("spawn")
@@ -581,7 +590,9 @@ def cascade(seed):
         elif x < 0.55:
             ops.append(f"addfn {r.choice(['fn0', 'fn1', 'fn2', 'fn3'])} {r.choice(['plain', 'high', 'low', 'notid'])}")
         elif x < 0.6:
-            ops.append(rand_handler(ctx, allow_panic=0, tid=(r.randrange(3) if r.random() < 0.3 else None)))
+            recv = r.choice(CASC) if observers else None
+            ops.append(rand_handler(ctx, recv=recv, allow_panic=0, tid=(r.randrange(3) if r.random() < 0.3 else None),
+                                    observer=observers))
         elif x < 0.7:
             ops.append(f"addc {ctx.k()}")
         elif x < 0.75:
